@@ -717,14 +717,280 @@ def decoder_regions(ctx, prog, f, is_input, strict_last=True, split16=False):
                       '%s assembles the code as [%s] (lead 0x%02x), RFC 3629 requires [%s]' % (f['q'], bits.show(got, names, 21), sample, bits.show(exp, names, 21)))
 
 
+# ------------------------------------------------------------------ C08.layout by abstract interpretation (absim)
+
+def _callees(prog, f, depth=2):
+    out, seen = [], set()
+    def go(g, d):
+        for e in fn_exprs(g):
+            if e.get('k') == 'call' and e.get('fn') and e['fn'] not in seen:
+                seen.add(e['fn'])
+                for h in prog.fn(e['fn'], e.get('sig')):
+                    if h.get('body'):
+                        out.append(h)
+                        if d > 1:
+                            go(h, d - 1)
+                        break
+    go(f, depth)
+    return out
+
+
+def _cut_points(prog, f, extra):
+    ks = set(extra)
+    for g in [f] + _callees(prog, f):
+        for e in fn_exprs(g):
+            if e.get('k') == 'bin' and e.get('op') in ('==', '!=', '<', '>', '<=', '>='):
+                for w in walk_expr(e):
+                    if w.get('k') == 'int' and const_val(w) is not None:
+                        ks |= {const_val(w), const_val(w) + 1}
+        for s_ in ir.walk_stmts(g['body']):
+            if s_.get('k') == 'case' and s_.get('v') is not None:
+                ks |= {s_['v'], s_['v'] + 1}
+                if s_.get('v2') is not None:
+                    ks |= {s_['v2'], s_['v2'] + 1}
+    return ks
+
+
+def _regions(cuts, lo, hi):
+    pts = sorted(k for k in cuts if lo < k <= hi)
+    out, a = [], lo
+    for k in pts:
+        out.append((a, k - 1))
+        a = k
+    out.append((a, hi))
+    return out
+
+
+def _ref_utf8(c, n):
+    if n == 1:
+        return [c]
+    if n == 2:
+        return [0xc0 | (c >> 6), 0x80 | (c & 0x3f)]
+    if n == 3:
+        return [0xe0 | (c >> 12), 0x80 | ((c >> 6) & 0x3f), 0x80 | (c & 0x3f)]
+    return [0xf0 | (c >> 18), 0x80 | ((c >> 12) & 0x3f), 0x80 | ((c >> 6) & 0x3f), 0x80 | (c & 0x3f)]
+
+
+def _eq_out(nbits):
+    import absim
+    def eq(got, want):
+        if got is None or want is None:
+            return None
+        if len(got) != len(want):
+            return False
+        unknown = False
+        for g_, w_ in zip(got, want):
+            gb, wb = absim.to_bits(g_, nbits), absim.to_bits(w_, nbits)
+            if 'X' in gb or 'X' in wb:
+                if any(x != y and x != 'X' and y != 'X' and x in ('0', '1') and y in ('0', '1') for x, y in zip(gb, wb)):
+                    return False
+                unknown = True
+            elif gb != wb:
+                return False
+        return None if unknown else True
+    return eq
+
+
+def _hexs(vals, width):
+    m = (1 << width) - 1
+    return '[' + ' '.join(('%0' + str(width // 4) + 'x') % (v & m) if isinstance(v, int) else '?' for v in vals) + ']'
+
+
+def _confirm(sources, assign, run_fn, ref_fn, nbits):
+    """a symbolic mismatch is reported only with a concrete member of the case on which the two interpretations differ"""
+    import absim
+    eq = _eq_out(nbits)
+    for pat in (0, -1, 0x5555555555555555, 0xaaaaaaaaaaaaaaaa, 0x3333333333333333, 0x0f0f0f0f0f0f0f0f, 1, 0x80, 0x8000):
+        try:
+            vals = [s_.concrete(assign, pat) for s_ in sources]
+            got, want = run_fn(vals), ref_fn(vals)
+        except (absim.Infeasible, absim.Unsupported, TypeError):
+            continue
+        if eq(got, want) is False:
+            return vals, got, want
+    return None
+
+
+def abs_encoder(ctx, prog, f, is16):
+    """UTF-32 / UTF-16 -> UTF-8 encoder decided by abstract interpretation of the whole body: the code-unit domain is cut at
+    every constant the function (and its helpers) compares with and at the RFC 3629 boundaries; on each region the body is
+    interpreted with the unit as symbolic bits + interval, and the bytes it stores must equal, bit for bit, the RFC encoding
+    computed on the same abstract value.  Surrogate pairs: first unit x second unit regions, invalid seconds give no bytes.
+    -> True if every region was decided (the verdicts were recorded), False if the caller should fall back."""
+    import absim, scansim
+    ptr_in = [p_ for p_ in f['params'] if T(f, p_['t']).get('ptr') and T(f, T(f, p_['t']).get('to')).get('const')]
+    ptr_out = [p_ for p_ in f['params'] if T(f, p_['t']).get('ptr') and not T(f, T(f, p_['t']).get('to')).get('const')]
+    ints = [p_ for p_ in f['params'] if T(f, p_['t']).get('int')]
+    if len(ptr_in) != 1 or len(ptr_out) != 1:
+        return False
+
+    def run_fn(values):
+        bufs = {'IN': list(values) + [0], 'OUT': []}
+        r = scansim.Run(prog, f, bufs, ptr_params={ptr_in[0]['id']: ('P', 'IN', 0), ptr_out[0]['id']: ('P', 'OUT', 0)},
+                        int_params=dict((p_['id'], 1 << 20) for p_ in ints), growable=('OUT',))
+        r.run()
+        return list(bufs['OUT'])
+
+    top = 0xffff if is16 else 0x10ffff
+    cuts = _cut_points(prog, f, [0x80, 0x800, 0x10000, 0xd800, 0xdc00, 0xe000])
+    width = 16 if is16 else 21
+    cases = []      # (label, sources, ref_fn)
+    for a, b in _regions(cuts, 1, top):
+        if 0xd800 <= a and b <= 0xdfff:
+            if not is16:
+                continue
+            if a >= 0xdc00:
+                cases.append(('lone second surrogate %04x..%04x' % (a, b), [absim.Source('c', width, a, b)], lambda vals: [0]))
+                continue
+            for a2, b2 in _regions(cuts, 1, top):
+                if 0xdc00 <= a2 and b2 <= 0xdfff:
+                    def ref(vals):
+                        d = (((vals[0] & 0x3ff) << 10) | (vals[1] & 0x3ff)) + 0x10000
+                        return _ref_utf8(d, 4) + [0]
+                    cases.append(('surrogate pair %04x..%04x, %04x..%04x' % (a, b, a2, b2), [absim.Source('c', width, a, b), absim.Source('d', width, a2, b2)], ref))
+                else:
+                    cases.append(('first surrogate %04x..%04x followed by %04x..%04x' % (a, b, a2, b2), [absim.Source('c', width, a, b), absim.Source('d', width, a2, b2)], lambda vals: [0]))
+            continue
+        n = utf8_len_of(a)
+        cases.append(('U+%04X..U+%04X (%d byte%s)' % (a, b, n, 's' if n > 1 else ''), [absim.Source('c', width, a, b)], (lambda n: lambda vals: _ref_utf8(vals[0], n) + [0])(n)))
+    eq = _eq_out(8)
+    total_leaves = 0
+    verdicts = []
+    for label, sources, ref in cases:
+        leaves, bad, und = absim.explore(sources, run_fn, ref, eq)
+        total_leaves += len(leaves)
+        ctx.evaluations += len(leaves) + len(und)
+        if und:
+            return False
+        v = None
+        for assign, values, got, want in bad:
+            w = _confirm(sources, assign, run_fn, ref, 8)
+            if w is None:
+                return False
+            v = w
+            break
+        verdicts.append((label, len(leaves), v))
+    role = '%s:bytes stored for every code unit region' % f['n']
+    badv = [(l, v) for l, n_, v in verdicts if v is not None]
+    if badv:
+        for label, (vals, got, want) in badv[:3]:
+            ctx.violation('C08.layout', f['pq'], role + ' ' + label.split(' (')[0], fwhere(f),
+                          '%s: for the input %s the interpreted body stores %s, RFC 3629 / UTF-16 requires %s (region %s)' % (f['q'], _hexs(vals, 32 if not is16 else 16), _hexs(got, 8), _hexs(want, 8), label))
+    else:
+        ctx.ok('C08.layout', f['pq'], role, fwhere(f), 'abstract interpretation over %d regions (%d cases after bit splitting): stored bytes equal the RFC 3629 encoding bit for bit%s' % (
+            len(verdicts), total_leaves, '; pairs recombined as 0x10000 + (hi-0xd800)<<10 + (lo-0xdc00), invalid seconds store nothing' if is16 else ''))
+    return True
+
+
+def abs_decoder(ctx, prog, f, mode):
+    """UTF-8 decoder (mode 'utf32' / 'utf16': stores through the output pointer; 'enum': Enumerator::operator* returning the
+    code and setting n) decided by abstract interpretation: every lead byte value, with symbolic continuation bytes 10xxxxxx;
+    restricted to well-formed UTF-8 (no overlong forms, no surrogates, <= U+10FFFF) the values produced must equal the RFC 3629
+    payload layout bit for bit (for UTF-16 the surrogate split of code - 0x10000)."""
+    import absim, scansim
+    ptr_in = [p_ for p_ in f['params'] if T(f, p_['t']).get('ptr') and T(f, T(f, p_['t']).get('to')).get('const')]
+    ptr_out = [p_ for p_ in f['params'] if T(f, p_['t']).get('ptr') and not T(f, T(f, p_['t']).get('to')).get('const')]
+    ints = [p_ for p_ in f['params'] if T(f, p_['t']).get('int')]
+    if mode != 'enum' and (len(ptr_in) != 1 or len(ptr_out) != 1):
+        return False
+
+    def run_fn(values):
+        bufs = {'IN': list(values) + [0], 'OUT': []}
+        if mode == 'enum':
+            r = scansim.Run(prog, f, bufs, mem_ptrs={'u': ('P', 'IN', 0)}, mems={'n': 0})
+            ret = r.run()
+            return [ret, r.mems.get('n')]
+        r = scansim.Run(prog, f, bufs, ptr_params={ptr_in[0]['id']: ('P', 'IN', 0), ptr_out[0]['id']: ('P', 'OUT', 0)},
+                        int_params=dict((p_['id'], 1 << 20) for p_ in ints), growable=('OUT',))
+        r.run()
+        return list(bufs['OUT'])
+
+    def ref_fn(values):
+        lead = values[0] & 0xff
+        tr = [v & 0x3f for v in values[1:]]
+        n = len(values)
+        if n == 1:
+            code = lead
+        elif n == 2:
+            code = ((lead & 0x1f) << 6) | tr[0]
+            if code < 0x80:
+                raise absim.Infeasible()
+        elif n == 3:
+            code = ((lead & 0x0f) << 12) | (tr[0] << 6) | tr[1]
+            if code < 0x800 or (code >= 0xd800 and code <= 0xdfff):
+                raise absim.Infeasible()
+        else:
+            code = ((lead & 0x07) << 18) | (tr[0] << 12) | (tr[1] << 6) | tr[2]
+            if code < 0x10000 or code > 0x10ffff:
+                raise absim.Infeasible()
+        if mode == 'enum':
+            return [code, n]
+        if mode == 'utf16' and n == 4:
+            d = code - 0x10000
+            return [0xd800 + (d >> 10), 0xdc00 + (d & 0x3ff), 0]
+        return [code, 0]
+
+    eq = _eq_out(32)
+    total = 0
+    first_bad = None
+    nlead = 0
+    for b in range(1, 256):
+        n = 1 if b < 0x80 else 2 if b & 0xe0 == 0xc0 else 3 if b & 0xf0 == 0xe0 else 4 if b & 0xf8 == 0xf0 else 0
+        if n == 0:
+            continue                    # not a lead byte of well-formed UTF-8: outside the checked domain (bounded by R-SCAN)
+        sv = b - 256 if b > 127 else b
+        sources = [absim.Source('c', 8, b, b, signed=True)] + [absim.Source('t%d' % k, 8, 0x80, 0xbf, fixed={7: 1, 6: 0}, signed=True) for k in range(1, n)]
+        leaves, bad, und = absim.explore(sources, run_fn, ref_fn, eq)
+        total += len(leaves)
+        ctx.evaluations += len(leaves) + len(und)
+        nlead += 1
+        if und:
+            return False
+        for assign, values, got, want in bad:
+            w = _confirm(sources, assign, run_fn, ref_fn, 32)
+            if w is None:
+                return False
+            if first_bad is None:
+                first_bad = (b, n, w)
+            break
+    role = '%s:value decoded for every well-formed sequence' % f['n']
+    if first_bad:
+        b, n, (vals, got, want) = first_bad
+        ctx.violation('C08.layout', f['pq'], role, fwhere(f), '%s: for the %d-byte sequence %s the interpreted body yields %s, RFC 3629 requires %s%s' % (
+            f['q'], n, _hexs(vals, 8), _hexs(got, 32), _hexs(want, 32), ' (code, n)' if mode == 'enum' else ''))
+    else:
+        ctx.ok('C08.layout', f['pq'], role, fwhere(f), 'abstract interpretation for %d lead bytes x symbolic continuation bytes (%d cases): decoded value equals the RFC 3629 payload layout bit for bit%s' % (
+            nlead, total, '; 4-byte sequences split into 0xd800 + (d >> 10), 0xdc00 + (d & 0x3ff)' if mode == 'utf16' else ''))
+    return True
+
+
+def _guarded_abs(ctx, f, thunk):
+    """runs an absim decision; any failure of the interpreter itself means "not decided this way" (fallback), never a verdict"""
+    import absim
+    try:
+        return bool(thunk())
+    except (absim.Unsupported, absim.Infeasible, TypeError, KeyError, IndexError, RecursionError):
+        return False
+
+
 def check_layout(ctx, prog):
     # ---- encoders
+    # Each codec is first decided by abstract interpretation of its whole body (absim); the store-site / guard rules below
+    # are the fallback for a body the interpreter cannot follow.
     f = fn1(prog, 'asl::utf32toUtf8')
     ctx.analysed(f)
-    encoder_regions(ctx, prog, f, False)
+    if not _guarded_abs(ctx, f, lambda: abs_encoder(ctx, prog, f, False)):
+        encoder_regions(ctx, prog, f, False)
 
     f = fn1(prog, 'asl::utf16toUtf8')
     ctx.analysed(f)
+    if not _guarded_abs(ctx, f, lambda: abs_encoder(ctx, prog, f, True)):
+        check_layout_utf16_encoder_fallback(ctx, prog, f)
+
+    check_layout_decoders(ctx, prog)
+
+
+def check_layout_utf16_encoder_fallback(ctx, prog, f):
     cv, dvars, seconds = encoder_regions(ctx, prog, f, True)
     # surrogate pair recombination: d = (((c - 0xd800) << 10) | (c2 - 0xdc00)) + 0x10000, evaluated for corner pairs
     role = 'utf16toUtf8:surrogate pair recombination'
@@ -747,7 +1013,9 @@ def check_layout(ctx, prog):
         except bytesets.Undecidable as ex:
             ctx.undecided('C08.layout', f['pq'], role, fwhere(f, d['l']), 'recombination expression not evaluable: %s' % ex)
 
-    # ---- decoders
+
+
+def check_layout_decoders(ctx, prog):
     def stored_value(body):
         st = stores_through(body)
         return st[0] if st else None
@@ -759,10 +1027,18 @@ def check_layout(ctx, prog):
     f = fn1(prog, 'asl::utf8toUtf32')
     ctx.analysed(f)
     inp = f['params'][0]['id']
-    decoder_regions(ctx, prog, f, lambda e: e.get('k') == 'var' and e.get('id') == inp)
+    if not _guarded_abs(ctx, f, lambda: abs_decoder(ctx, prog, f, 'utf32')):
+        decoder_regions(ctx, prog, f, lambda e: e.get('k') == 'var' and e.get('id') == inp)
+
+    f = fn1(prog, 'asl::String::Enumerator::operator*')
+    ctx.analysed(f)
+    if not _guarded_abs(ctx, f, lambda: abs_decoder(ctx, prog, f, 'enum')):
+        decoder_regions(ctx, prog, f, lambda e: e.get('k') == 'mem' and e.get('f') == 'u', strict_last=False)
 
     f = fn1(prog, 'asl::utf8toUtf16')
     ctx.analysed(f)
+    if _guarded_abs(ctx, f, lambda: abs_decoder(ctx, prog, f, 'utf16')):
+        return
     inp16 = f['params'][0]['id']
     decoder_regions(ctx, prog, f, lambda e: e.get('k') == 'var' and e.get('id') == inp16, split16=True)
     ch = find_chain(f, 4)
@@ -790,10 +1066,6 @@ def check_layout(ctx, prog):
             ctx.undecided('C08.layout', f['pq'], 'utf8toUtf16:surrogate split', fwhere(f, b4.get('l')), 'split expressions not evaluable: %s' % ex)
     else:
         ctx.undecided('C08.layout', f['pq'], 'utf8toUtf16:surrogate split', fwhere(f, b4.get('l')), 'expected d = code - 0x10000 and two stored units')
-
-    f = fn1(prog, 'asl::String::Enumerator::operator*')
-    ctx.analysed(f)
-    decoder_regions(ctx, prog, f, lambda e: e.get('k') == 'mem' and e.get('f') == 'u', strict_last=False)
 
 
 # ------------------------------------------------------------------ C08.outbuf
@@ -884,22 +1156,75 @@ def check_case(ctx, prog):
         ctx.analysed(f)
         targets[fname] = f
 
-    def accesses(h):
-        return [e for e in fn_exprs(h) if e.get('k') == 'idx' and strip(e['b']).get('k') == 'var' and strip(e['b']).get('q') in tabs]
+    def resolve_base(h, b, depth=0):
+        """pointer expression -> (root, offsets): root = ('tab', name) for a case table, ('param', k) for the k-th parameter
+        of h; offsets = the expressions added to the root on the way (locals are read through their single definition)"""
+        b = strip(b)
+        if depth > 6:
+            return None, []
+        if b.get('k') == 'var' and b.get('q') in tabs:
+            return ('tab', b['q']), []
+        if b.get('k') == 'var' and b.get('vk') == 'param':
+            for k_, p_ in enumerate(h['params']):
+                if p_['id'] == b.get('id'):
+                    return ('param', k_), []
+            return None, []
+        if b.get('k') == 'var':
+            d = q.single_defs(h).get(b.get('id'))
+            return resolve_base(h, d, depth + 1) if d is not None else (None, [])
+        if b.get('k') == 'bin' and b.get('op') == '+':
+            for x, y in ((b['x'], b['y']), (b['y'], b['x'])):
+                if T(h, strip_lv(x).get('t')).get('ptr') or T(h, strip(x).get('t')).get('ptr') or T(h, strip(x).get('t')).get('n') is not None:
+                    r, offs = resolve_base(h, x, depth + 1)
+                    if r is not None:
+                        return r, offs + [y]
+            return None, []
+        if b.get('k') == 'un' and b.get('op') == '&' and strip_lv(b['e']).get('k') == 'idx':
+            r, offs = resolve_base(h, strip_lv(b['e'])['b'], depth + 1)
+            return r, offs + [strip_lv(b['e'])['i']]
+        return None, []
+
+    def accesses(h, want_params=False):
+        """table reads of h: (expression, table name or parameter index, index expressions to be summed)"""
+        out = []
+        for e in fn_exprs(h):
+            if e.get('k') == 'idx':
+                r, offs = resolve_base(h, e['b'])
+                idxs = offs + [e['i']]
+            elif e.get('k') == 'un' and e.get('op') == '*':
+                r, offs = resolve_base(h, e['e'])
+                idxs = offs
+            else:
+                continue
+            if r is None or not idxs:
+                continue
+            if r[0] == 'tab' or want_params:
+                out.append((e, r, idxs))
+        return out
     GRID = range(0, 4096)
     for fname, f in targets.items():
         G = q.Guarded(f)
-        sites = [(e, None, None) for e in accesses(f)]
+        sites = [(e, None, None, r[1], idxs) for e, r, idxs in accesses(f)]
         for c in fn_exprs(f):
             if c.get('k') == 'call' and c.get('fn') and not c.get('clsp'):
                 for h in prog.fn(c['fn'], c.get('sig')):
                     if h.get('body') and h is not f:
-                        sites += [(e, c, h) for e in accesses(h)]
-        for e, call, h in sites:
-            tab = strip(e['b'])['q']
+                        for e, r, idxs in accesses(h, want_params=True):
+                            if r[0] == 'tab':
+                                sites.append((e, c, h, r[1], idxs))
+                            elif r[1] < len(c.get('a', [])):
+                                # the table is handed to the helper as a pointer argument
+                                r2, offs2 = resolve_base(f, c['a'][r[1]])
+                                if r2 is not None and r2[0] == 'tab' and not offs2:
+                                    sites.append((e, c, h, r2[1], idxs))
+        for e, call, h, tab, idxs in sites:
             try:
                 if call is None:
-                    by_id, by_text = bounded.atoms_of(prog, f, e['i'], allow_assigned=tuple(bounded.assigned_vars(f)))
+                    by_id, by_text = {}, {}
+                    for ix in idxs:
+                        bi, bt = bounded.atoms_of(prog, f, ix, allow_assigned=tuple(bounded.assigned_vars(f)))
+                        by_id.update(bi)
+                        by_text.update(bt)
                     guards = G.of(e)
                 else:
                     by_id, by_text = {}, {}
@@ -919,7 +1244,7 @@ def check_case(ctx, prog):
                     if not bounded.admitted(ev, guards, G):
                         continue
                     if call is None:
-                        iv = ev.ev(e['i'])
+                        iv = sum(ev.ev(ix) for ix in idxs)
                     else:
                         env = {}
                         for p_, a_ in zip(h['params'], call.get('a', [])):
@@ -928,17 +1253,17 @@ def check_case(ctx, prog):
                         evh = bounded.Bound(prog, h, env, {})
                         if not bounded.admitted(evh, Gh.of(e), Gh):
                             continue
-                        iv = evh.ev(e['i'])
+                        iv = sum(evh.ev(ix) for ix in idxs)
                     ctx.evaluations += 1
                     if top is None or iv > top[0]:
                         top = (iv, v)
             except bytesets.Undecidable as u:
-                ctx.undecided('C08.case', f['pq'], fname + ':table index guard', fwhere(f, (call or e)['l']), 'index `%s` not evaluable: %s' % (pe(e['i']), u))
+                ctx.undecided('C08.case', f['pq'], fname + ':table index guard', fwhere(f, (call or e)['l']), 'index `%s` not evaluable: %s' % (' + '.join(pe(ix) for ix in idxs), u))
                 continue
             if top is None:
                 continue
             if top[1] >= GRID[-1]:
-                ctx.violation('C08.case', f['pq'], fname + ':table index guard', fwhere(f, (call or e)['l']), 'no dominating bound on the index of %s (`%s` admitted for every code up to %d): out-of-bounds table read' % (tab, pe(e['i']), top[1]))
+                ctx.violation('C08.case', f['pq'], fname + ':table index guard', fwhere(f, (call or e)['l']), 'no dominating bound on the index of %s (`%s` admitted for every code up to %d): out-of-bounds table read' % (tab, ' + '.join(pe(ix) for ix in idxs), top[1]))
                 continue
             key = (fname, tab)
             if key not in max_idx or top[0] > max_idx[key][0]:
